@@ -230,6 +230,11 @@ theorem traceOk_ext {g : Graph} {tr es : List Ev} (h : TraceOk g tr) (hlen : es.
   | [], _ => simpa using h
   | [e], _ => exact traceOk_snoc h (hok e (by simp))
 
+theorem cmd_of_ret {g : Graph} {tr : List Ev} (h : TraceOk g tr) {t i : Nat} {b : Bool}
+    (hr : Ev.ret t i b ∈ tr) : Ev.cmd t i ∈ tr := by
+  obtain ⟨pre, post, hs, hok⟩ := traceOk_mem h hr
+  rw [hs]; exact List.mem_append_left _ hok.1
+
 /-- the general shape of a step in which task `t` moves from `s.pc t` to `q`, possibly emitting one
 event and setting error flags, and nothing is submitted -/
 theorem inv_move {g : Graph} {s s' : St} (hI : Inv g s) {t : Nat} {q : PC} {es : List Ev}
@@ -500,7 +505,7 @@ theorem inv_T2 {g : Graph} {s : St} (hw : WF g) (hI : Inv g s) {t k w : Nat} (hp
     runB := by intro i hi; cases hi
     clo := by
       intro f _
-      refine ⟨fun i _ hc => absurd (T.cmdB 0 rfl i hc) (Nat.not_lt_zero _), fun _ => by simp [upd_apply]⟩
+      refine ⟨fun i _ hc => absurd (T.cmdB 0 rfl i hc) (Nat.not_lt_zero _), fun _ => Or.inl (by simp [upd_apply])⟩
     nodone := fun _ => T.nodone (by simp)
     fin := by intro hf; cases hf
     df := fun _ => by simp [upd_apply]
@@ -648,7 +653,7 @@ theorem inv_T5 {g : Graph} {s : St} (hI : Inv g s) {t i : Nat} (hpc : s.pc t = .
 
 /-- S1: RunLoop takes the `<-Done()` branch -/
 theorem inv_S1 {g : Graph} {s : St} (hI : Inv g s) {t i : Nat} (hpc : s.pc t = .run i)
-    (hc : s.cerr (g.ctx t) = true) :
+    (hc : (s.cerr (g.ctx t) || selfStopped g t i) = true) :
     Inv g { s with pc := upd s.pc t (.closing false) } := by
   have T := hI.ti t
   unfold TIs at T; rw [hpc] at T
@@ -686,7 +691,18 @@ theorem inv_S1 {g : Graph} {s : St} (hI : Inv g s) {t i : Nat} (hpc : s.pc t = .
     runB := by intro i hi; cases hi
     clo := by
       intro f _
-      exact ⟨fun j _ hc => Or.inl ((T.okB i rfl).2 j (T.cmdB i rfl j hc)).1, fun _ => hc⟩
+      refine ⟨fun j _ hc => Or.inl ((T.okB i rfl).2 j (T.cmdB i rfl j hc)).1, fun _ => ?_⟩
+      rcases Bool.or_eq_true_iff.mp hc with h1 | h1
+      · exact Or.inl h1
+      · right
+        unfold selfStopped at h1
+        rw [List.any_eq_true] at h1
+        obtain ⟨k, hk, hkc⟩ := h1
+        have hki : k < i := List.mem_range.mp hk
+        have hkc' : g.cmdAt t k = some .stop := by simpa using hkc
+        have dn := (T.okB i rfl).2
+        refine ⟨⟨cmd_of_ret hI.ok (dn 0 (by omega)).1, k, List.mem_range.mpr (cmdAt_lt hkc'), hkc',
+          cmd_of_ret hI.ok (dn k hki).1⟩, fun j hj => dn j (T.cmdB i rfl j hj)⟩
     nodone := fun _ => T.nodone (by simp)
     fin := by intro hf; cases hf
     df := T.df
@@ -695,6 +711,72 @@ theorem inv_S1 {g : Graph} {s : St} (hI : Inv g s) {t i : Nat} (hpc : s.pc t = .
 /-- T6: a probe command returns nil -/
 theorem inv_T6 {g : Graph} {s : St} (hw : WF g) (hI : Inv g s) {t i : Nat} (hpc : s.pc t = .inCmd i)
     (hcmd : g.cmdAt t i = some .probe) :
+    Inv g (emit { s with pc := upd s.pc t (.afterCmd i) } (.ret t i true)) := by
+  have T := hI.ti t
+  unfold TIs at T; rw [hpc] at T
+  have hfd : FreshDone s.tr [Ev.ret t i true] := by intro u b h; simp at h
+  apply inv_move_na hI (t := t) (q := .afterCmd i) (es := [.ret t i true])
+  case hpc => rfl
+  case htr => rfl
+  case htg => rfl
+  case hmp => rfl
+  case hlen => simp
+  case hacc => rw [hpc]; rfl
+  case hnf => rw [hpc]; simp
+  case hna => rw [hpc]; simp
+  case hqacc => rfl
+  case hfd => exact hfd
+  case hev =>
+    intro u hu e he; simp at he; subst he
+    exact ret_not_touch hw hu (by simp [hcmd]) (by simp [hcmd])
+  case hce => exact fun _ h => h
+  case hi2 => exact fun _ h => Or.inl h
+  case hok =>
+    intro e he; simp at he; subst he
+    refine ⟨(T.inc i rfl).2, ?_, T.nodone (by simp), ?_⟩
+    · intro h; rcases h with h | h <;> exact Nat.lt_irrefl _ (T.retB i rfl i _ h)
+    · simp [retOk, hcmd]
+  case hnoacc => simp
+  case hnr => intro y hy h; exact absurd h (ret_not_try hw hy (by simp [hcmd]))
+  case hi3 => exact fun _ h => Or.inl h
+  case hfin3 => intro h; cases h
+  case hq =>
+    show TI g t (.afterCmd i) (s.tr ++ [.ret t i true]) _ _
+    exact {
+    range := fun _ => T.range (by simp)
+    once := fun _ => created_mono _ (Nat.le_refl _) (T.once (by simp))
+    sub := fun _ => submitted_mono _ (T.sub rfl)
+    accEv := fun _ hn => acceptedEv_mono _ (T.accEv rfl hn)
+    accEv' := fun _ => rfl
+    cmdB := by
+      intro m hm j hj; simp [issued] at hm; subst hm
+      rw [mem_snoc_ne (by simp)] at hj
+      exact T.cmdB (i + 1) rfl j hj
+    retB := by
+      intro m hm j b hj; simp [returned] at hm; subst hm
+      rcases List.mem_append.mp hj with hj | hj
+      · exact Nat.lt_succ_of_lt (T.retB i rfl j b hj)
+      · simp at hj; omega
+    okB := by
+      intro m hm; simp [okUpTo] at hm; subst hm
+      have := T.okB i rfl
+      exact ⟨waitsOk_mono _ this.1, fun j hj => cmdDoneOk_mono _ hfd (this.2 j hj)⟩
+    wait := by intro k hk; cases hk
+    inc := by intro i hi; cases hi
+    aft := by intro i' hi'; cases hi'; exact ⟨(T.inc i rfl).1, by simp⟩
+    runB := by intro i hi; cases hi
+    clo := by intro f hf; cases hf
+    nodone := by
+      intro _ h; apply T.nodone (by simp)
+      unfold hasDone at *
+      rw [mem_snoc_ne (by simp), mem_snoc_ne (by simp)] at h; exact h
+    fin := by intro hf; cases hf
+    df := by intro h; rw [mem_snoc_ne (by simp)] at h; exact T.df h
+    duniq := by intro h; rw [mem_snoc_ne (by simp), mem_snoc_ne (by simp)] at h; exact T.duniq h }
+
+/-- T6': a command that stops its scope returns nil -/
+theorem inv_T6s {g : Graph} {s : St} (hw : WF g) (hI : Inv g s) {t i : Nat} (hpc : s.pc t = .inCmd i)
+    (hcmd : g.cmdAt t i = some .stop) :
     Inv g (emit { s with pc := upd s.pc t (.afterCmd i) } (.ret t i true)) := by
   have T := hI.ti t
   unfold TIs at T; rw [hpc] at T
@@ -824,7 +906,7 @@ theorem inv_T7 {g : Graph} {s : St} (hw : WF g) (hI : Inv g s) {t i : Nat} (hpc 
     runB := by intro i hi; cases hi
     clo := by
       intro f _
-      refine ⟨fun j _ hc => ?_, fun _ => by simp⟩
+      refine ⟨fun j _ hc => ?_, fun _ => Or.inl (by simp)⟩
       rw [mem_snoc_ne (by simp)] at hc
       have hj := T.cmdB (i + 1) rfl j hc
       rcases Nat.lt_or_ge j i with h1 | h1
@@ -838,11 +920,6 @@ theorem inv_T7 {g : Graph} {s : St} (hw : WF g) (hI : Inv g s) {t i : Nat} (hpc 
     fin := by intro hf; cases hf
     df := by intro _; simp
     duniq := by intro h; rw [mem_snoc_ne (by simp), mem_snoc_ne (by simp)] at h; exact T.duniq h }
-
-theorem cmd_of_ret {g : Graph} {tr : List Ev} (h : TraceOk g tr) {t i : Nat} {b : Bool}
-    (hr : Ev.ret t i b ∈ tr) : Ev.cmd t i ∈ tr := by
-  obtain ⟨pre, post, hs, hok⟩ := traceOk_mem h hr
-  rw [hs]; exact List.mem_append_left _ hok.1
 
 theorem finished_of_not_parentAt {g : Graph} {s : St} (hI : Inv g s) {u : Nat}
     (ha : (s.pc u).accepted = true) (hp : ¬ parentAt g s u) : s.pc u = .finished := by
@@ -890,9 +967,11 @@ theorem cmd0_of_done_true {g : Graph} (hw : WF g) {tr : List Ev} (hok : TraceOk 
   have h0 : 0 < (g.body h).length := List.length_pos_iff.mpr (hw.body h hn)
   have h3 := hk.2.2
   simp only [if_true] at h3
-  have hret := (h3.2 0 (List.mem_range.mpr h0)).1
   have hpre : TraceOk g pre := traceOk_prefix (b := Ev.done h true :: post) (by rw [← hs]; exact hok)
-  rw [hs]; exact List.mem_append_left _ (cmd_of_ret hpre hret)
+  rw [hs]
+  rcases h3.2 with h4 | h4
+  · exact List.mem_append_left _ (cmd_of_ret hpre (h4 0 (List.mem_range.mpr h0)).1)
+  · exact List.mem_append_left _ h4.1.1
 
 theorem mem_selected {g : Graph} {tr : List Ev} {y h : Nat} (hsel : h ∈ selected g tr y) :
     (g.tryd y).fin = some h ∨ (Ev.done (g.tryd y).body false ∈ tr ∧ (g.tryd y).fail = some h) ∨
@@ -1026,13 +1105,16 @@ theorem inv_T14 {g : Graph} {s : St} (hw : WF g) (hI : Inv g s) {t : Nat} {f : B
       · trivial
     · cases hce : s.cerr (g.ctx t)
       · simp only [Bool.not_false, if_true]
-        have hf : f = true := by
-          cases f
-          · have := (T.clo false rfl).2 rfl; rw [hce] at this; cases this
-          · rfl
-        subst hf
-        have := T.okB _ rfl
-        exact ⟨this.1, fun i hi => this.2 i (List.mem_range.mp hi)⟩
+        cases f
+        · rcases (T.clo false rfl).2 rfl with h1 | ⟨h1, h2⟩
+          · rw [hce] at h1; cases h1
+          · refine ⟨?_, Or.inr ⟨h1, fun i _ hc => h2 i hc⟩⟩
+            obtain ⟨pre0, post0, hs0, hk0⟩ := traceOk_mem hI.ok h1.1
+            have := hk0.2.2.2
+            simp only [if_true] at this
+            rw [hs0]; exact waitsOk_mono _ this.2
+        · have := T.okB _ rfl
+          exact ⟨this.1, Or.inl (fun i hi => this.2 i (List.mem_range.mp hi))⟩
       · simp only [Bool.not_true]
         exact hI.i2 _ hce
   case hnoacc => simp
@@ -1064,7 +1146,9 @@ theorem inv_T14 {g : Graph} {s : St} (hw : WF g) (hI : Inv g s) {t : Nat} {f : B
       refine ⟨?_, ?_⟩
       · unfold hasDone; cases (!s.cerr (g.ctx t)) <;> simp
       · cases f
-        · exact Or.inr ((T.clo false rfl).2 rfl)
+        · rcases (T.clo false rfl).2 rfl with h1 | h1
+          · exact Or.inr h1
+          · exact Or.inl (List.mem_append_left _ h1.1.1)
         · have h0 : 0 < (g.body t).length := List.length_pos_iff.mpr (hw.body t ht)
           have := ((T.okB _ rfl).2 0 h0).1
           exact Or.inl (List.mem_append_left _ (cmd_of_ret hI.ok this))
@@ -1204,6 +1288,7 @@ theorem cmdDoneOk_of_guard {g : Graph} {s : St} (hw : WF g) (hI : Inv g s) {t i 
   cases c with
   | probe => trivial
   | fail => trivial
+  | stop => trivial
   | spawn c =>
     simp only [cmdChildrenFinished, beq_iff_eq] at hg
     have hc := hw.spawn ht hcmd
@@ -1311,7 +1396,7 @@ theorem inv_T12 {g : Graph} {s : St} (hw : WF g) (hI : Inv g s) {t i : Nat} {c :
     runB := by intro i hi; cases hi
     clo := by
       intro f _
-      refine ⟨fun j _ hc => ?_, fun _ => hce⟩
+      refine ⟨fun j _ hc => ?_, fun _ => Or.inl hce⟩
       have hj := T.cmdB (i + 1) rfl j hc
       rcases Nat.lt_or_ge j i with h1 | h1
       · exact Or.inl ((T.okB i rfl).2 j h1).1
@@ -1378,7 +1463,7 @@ theorem TI.ret_false {g : Graph} {t i : Nat} {tr : List Ev} {ce : Bool} {tgv : T
     runB := by intro i hi; cases hi
     clo := by
       intro f _
-      refine ⟨fun j _ hc => ?_, fun _ => rfl⟩
+      refine ⟨fun j _ hc => ?_, fun _ => Or.inl rfl⟩
       rw [mem_snoc_ne (by simp)] at hc
       have hj := T.cmdB (i + 1) rfl j hc
       rcases Nat.lt_or_ge j i with h1 | h1
@@ -1884,6 +1969,7 @@ theorem inv_stepTask {g : Graph} {s s' : St} {t : Nat} (hw : WF g) (hI : Inv g s
     split at h
     · cases h
     · rename_i hcmd; cases h; exact inv_T6 hw hI hpc hcmd
+    · rename_i hcmd; cases h; exact inv_T6s hw hI hpc hcmd
     · rename_i hcmd; cases h; exact inv_T7 hw hI hpc hcmd
     · rename_i c hcmd
       split at h
